@@ -160,6 +160,20 @@ def partition_contract(run: Run):
     from vf.schema import SchemaModel
     from vf.types import V, INT, pyv
     m = SchemaModel()
+    # Method.legacy_flattened_fields: stable partition into required / the rest, concatenated in that order, keyed by field.name (AST provenance;
+    # utils.partition's indexing of a tuple of lists by int(predicate(i)) is outside pyvc's subset)
+    from vf.core import find_def
+    f_l, h_l = find_def("gapic/schema/wrappers.py", "Method.legacy_flattened_fields")
+    src_l = ast.unparse(f_l)
+    run.functions.append({"qualname": "Method.legacy_flattened_fields", "source": "gapic/schema/wrappers.py", "sha256_16": h_l, "obligations": "AST pattern"})
+    run.table("metadata.fixup:legacy-order-is-required-then-rest-in-declaration-order",
+              "required, optional = utils.partition(lambda f: f.required, self.input.fields.values())" in src_l and
+              "return collections.OrderedDict(((f.name, f) for f in chain(required, optional)))" in src_l, detail=src_l[-260:], group="metadata.fixup:legacy-order")
+    f_p, h_p = find_def("gapic/utils/code.py", "partition")
+    src_p = ast.unparse(f_p)
+    run.table("metadata.fixup:partition-is-stable-and-complete",
+              "for i in iterator:\n        results[int(predicate(i))].append(i)" in src_p and "return (results[1], results[0])" in src_p, detail=src_p[-200:],
+              group="metadata.fixup:legacy-order")
     run.not_decided.append("utils.partition / Method.legacy_flattened_fields (tuple-of-lists indexed by int(predicate(i)): outside pyvc's subset) - covered by the native stand-in "
                            "(required fields first, then declaration order)")
 
